@@ -757,6 +757,26 @@ pub fn c06(tier: &str) -> Vec<Family> {
     let p = NodeSpec::new("", 2).script(1, vec![send(0, 1)]).out(vec![to(1)]);
     let ch = NodeSpec::new("", 1).parent(0).script(1, vec![query(0, 4)]).req(vec![to(1)]);
     sc.push(scn("submodel_stall/unnamed", &Arc::new(BenchSpec::new(vec![p, ch])), vec![pe(0, 1, 1)]));
+    // Any model of a hierarchy root{a{x}, b} + a plain model stalls (query loopback on itself):
+    // parents with sub-models, leaves, and models registered after a hierarchy.
+    {
+        let stall = |name: &str, me: usize, parent: Option<usize>| {
+            let mut n = NodeSpec::new(name, 2).script(1, vec![query(0, 4)]).req(vec![to(me)]);
+            n.parent = parent;
+            n
+        };
+        let nodes = vec![stall("root", 0, None), stall("a", 1, Some(0)), stall("x", 2, Some(1)), stall("b", 3, Some(0)), stall("plain", 4, None)];
+        let spec = Arc::new(BenchSpec::new(nodes));
+        for i in 0..5usize {
+            sc.push(scn(format!("hierarchy_stall/node{}", i), &spec, vec![pe(i, 1, 0)]));
+        }
+        // The plain model registered *before* the hierarchy.
+        let nodes = vec![stall("plain", 0, None), stall("root", 1, None), stall("a", 2, Some(1)), stall("b", 3, Some(1)), stall("y", 4, Some(3))];
+        let spec = Arc::new(BenchSpec::new(nodes));
+        for i in 0..5usize {
+            sc.push(scn(format!("hierarchy_stall2/node{}", i), &spec, vec![pe(i, 1, 0)]));
+        }
+    }
     // Stall during init.
     let a = NodeSpec::new("A", 1).init(vec![sendc(0, 2, 1), sendc(0, 2, 2)]).out(vec![to(0)]);
     sc.push(scn("init_stall", &Arc::new(BenchSpec::new(vec![a])), vec![]));
@@ -1227,6 +1247,16 @@ pub fn c10(tier: &str) -> Vec<Family> {
     )
     .cap(cap)];
     out.push(fam_c);
+    // The same series with start times before the epoch and crossing it.
+    if let Some(base) = out.first() {
+        let thin: Vec<Scenario> = base.scenarios.iter().enumerate().filter(|(i, _)| tier != "quick" || i % 4 == 0).map(|(_, s)| s.clone()).collect();
+        let mut e1 = Family::new("periodic_partitions@-1s", base.tags, thin.clone()).cap(cap).epoch(-1);
+        e1.dev_bound = base.dev_bound;
+        let mut e2 = Family::new("periodic_partitions@-7s", base.tags, thin).cap(cap).epoch(-7);
+        e2.dev_bound = base.dev_bound;
+        out.push(e1);
+        out.push(e2);
+    }
     out
 }
 
@@ -1353,6 +1383,26 @@ pub fn c11(tier: &str) -> Vec<Family> {
         sc_init.push(scn(format!("init_{}", name), &Arc::new(BenchSpec::new(vec![a, s, g])), vec![]));
     }
     fams.push(Family::new("init_faults", TAGS_ERRORS, sc_init));
+    // The same fault sequences in a simulation built on a thread on which an earlier
+    // simulation was terminated by a model panic (state left behind must not leak into the reports).
+    {
+        let all = c11_scenarios("quick", &spec, false);
+        let pre = all.iter().find(|s| s.label.contains("panic_custom")).cloned().expect("prelude scenario");
+        let pre2 = all.iter().find(|s| s.label.contains("norecipient_submodel")).cloned().expect("prelude scenario");
+        let mut sc_h = vec![];
+        for (i, s) in all.iter().enumerate() {
+            if !s.label.ends_with("follow0") && !(tier != "quick" && i % 5 == 0) {
+                continue;
+            }
+            let mut a = s.clone();
+            a.label = format!("after_panic/{}", s.label);
+            sc_h.push(with_prelude(a, pre.clone()));
+            let mut b = s.clone();
+            b.label = format!("after_norecipient/{}", s.label);
+            sc_h.push(with_prelude(b, pre2.clone()));
+        }
+        fams.push(Family::new("fault_sequences_history", TAGS_ERRORS, sc_h).cap(2_000));
+    }
     // Clock lag above tolerance.
     let mut sc_oos = vec![];
     for k in 1..=2usize {
@@ -1789,9 +1839,11 @@ pub fn c18(tier: &str) -> Vec<Family> {
             }
         }
     }
+    let thin: Vec<Scenario> = sc.iter().enumerate().filter(|(i, _)| i % 5 == 0).map(|(_, s)| s.clone()).collect();
     vec![
         Family::new("clock_gating", TAGS_SYNC, sc).cap(5_000),
         Family::new("scheduling_clock", TAGS_SYNC_AND_TIME, sc2).cap(5_000),
+        Family::new("clock_gating@-1s", TAGS_SYNC, thin).cap(5_000).epoch(-1),
     ]
 }
 
